@@ -26,6 +26,7 @@ CONSTANTS
   AllowNested = FALSE
   OthersCall = "never"
   KeepPagesWritable = FALSE
+  TrampFlushed = TRUE
   MaxLives = 2
 ACTION_CONSTRAINT AtomicAC
 INVARIANT Emit
